@@ -220,11 +220,19 @@ func tableCutGroup(c *Ctx, rule string) {
 
 // watermarkWindowGroup: sliding the watermark window keeps every pending count at or above the new base.
 func watermarkWindowGroup(c *Ctx, rule string) {
-	c.Rule(rule, "WaterMark.rebuildWindowLocked carries over the counter of every index >= newBase (= doneUntil+1): the only indices dropped are those strictly below the new base (`idx < newBase`) or beyond the new size; addIndex ignores only index 0 and offsets outside the window")
+	c.Rule(rule, "WaterMark.rebuildWindowLocked carries over the counter of every index >= newBase, where newBase (the base of the rebuilt window) is DoneUntil() or DoneUntil()+1: the only indices dropped are those strictly below the new base (`idx < newBase`) or beyond the new size; addIndex ignores only offsets outside the window")
 	fn := c.Fn("utils", "WaterMark.rebuildWindowLocked")
 	if fn == nil {
 		return
 	}
+	// newBase = the value that becomes the rebuilt window's base
+	var newBaseVal ssa.Value
+	for _, st := range fieldStoresIn(fn, false, "utils.watermarkWindow", "base") {
+		if sv, ok := st.(*ssa.Store); ok {
+			newBaseVal = Unwrap(sv.Val)
+		}
+	}
+	isDonePlusOne := func(v ssa.Value) bool { return v != nil && newBaseVal != nil && Unwrap(v) == newBaseVal }
 	ops := []string{}
 	for _, b := range fn.Blocks {
 		ifi := ifOf(b)
@@ -244,12 +252,6 @@ func watermarkWindowGroup(c *Ctx, rule string) {
 	// (= doneUntil+1, the oldest possibly unfinished one) must be visited: the first visited
 	// slot is 0, or (newBase - base) + K with K <= 0
 	startK, startKnown := int64(0), false
-	var newBaseVal ssa.Value
-	AllInstrs(fn, false, func(in ssa.Instruction) {
-		if v := valueOf(in); v != nil && isDonePlusOne(v) {
-			newBaseVal = v
-		}
-	})
 	for _, ld := range Calls(fn, false, Named("(*sync/atomic.Int32).Load")) {
 		ia, ok := ld.Common().Args[0].(*ssa.IndexAddr)
 		if !ok || fieldNameOf(ia.X) != "slots" {
@@ -345,14 +347,17 @@ func watermarkWindowGroup(c *Ctx, rule string) {
 		filterOK = false
 	}
 	c.Decide(filterOK && startKnown && startK <= 0, rule, key(fn, "drop-only:idx<newBase"), fn.Pos(), len(ops)+2, "the carry-over loop reaches the slot of index newBase and drops only indices strictly below the new base", fmt.Sprintf("the window rebuild does not carry over index newBase = doneUntil+1 (filter `idx %v newBase`, first visited slot (newBase-base)%+d, start derivable: %v): the pending mark of the oldest unfinished index is lost and doneUntil advances past it", ops, startK, startKnown))
-	// newBase = DoneUntil()+1
+	// newBase = DoneUntil() + K with K <= 1: nothing above the watermark falls below the new base
 	nb := false
-	AllInstrs(fn, false, func(in ssa.Instruction) {
-		if isDonePlusOne(valueOf(in)) {
-			nb = true
+	if newBaseVal != nil {
+		for _, dc := range Calls(fn, false, Named("utils.(*WaterMark).DoneUntil")) {
+			af := AffineOf(newBaseVal, dc.Value())
+			if len(af.Terms) == 1 && af.Terms[dc.Value()] == 1 && af.K <= 1 && af.K >= 0 {
+				nb = true
+			}
 		}
-	})
-	c.Decide(nb, rule, key(fn, "newBase=doneUntil+1"), fn.Pos(), 1, "the new window starts right above doneUntil", "the rebuilt window no longer starts at doneUntil+1")
+	}
+	c.Decide(nb, rule, key(fn, "newBase=doneUntil+1"), fn.Pos(), 1, "the new window starts at or right above doneUntil", "the rebuilt window no longer starts at doneUntil or doneUntil+1 (indices above the watermark can fall below the new base and lose their pending mark)")
 
 	// the rebuilt window contains the index that forced the rebuild: the size-doubling loop
 	// stops only once size >= index - newBase + 1 (affine normal form of its exit condition)
@@ -469,16 +474,6 @@ func isAddOf(v ssa.Value, field string) bool {
 		return false
 	}
 	return fieldNameOf(bo.X) == field || fieldNameOf(bo.Y) == field
-}
-
-func isDonePlusOne(v ssa.Value) bool {
-	bo, ok := v.(*ssa.BinOp)
-	if !ok || bo.Op != token.ADD {
-		return false
-	}
-	k, isK := ConstInt(bo.Y)
-	call, isC := bo.X.(*ssa.Call)
-	return isK && k == 1 && isC && Named("utils.(*WaterMark).DoneUntil")(call.Common())
 }
 
 // headPersistGroup: the value-log head recorded in the manifest is what reconcileManifest
@@ -2429,4 +2424,109 @@ func gcDeciderOf(rw *ssa.Function, needDecode bool) *ssa.Function {
 		}
 	}
 	return nil
+}
+
+// watermarkHoldGroup: an index can be begun again while it IS the watermark (a reader starting at
+// the timestamp every earlier reader has finished with; a reader at 0 on a fresh store).  Such an
+// index is pending at doneUntil, not above it, so before the watermark moves from doneUntil to
+// doneUntil+1 tryAdvance has to look at the counter of doneUntil as well as that of doneUntil+1,
+// and addIndex must count every index (also 0).  Decided on the affine normal form of the slot
+// offsets tested on the way to the CompareAndSwap.
+func watermarkHoldGroup(c *Ctx, rule string) {
+	c.Rule(rule, "utils.WaterMark.tryAdvance reaches the CompareAndSwap that advances doneUntil only behind `slot <= 0` tests of both the next index (doneUntil+1-base) and the watermark's own index (doneUntil-base); addIndex counts every index it is given (no index is silently ignored); the rebuilt window keeps the watermark's own slot (newBase <= doneUntil)")
+	fn := c.Fn("utils", "WaterMark.tryAdvance")
+	if fn == nil {
+		return
+	}
+	cas := need(c, rule, fn, false, "CompareAndSwapUint64(doneUntil)", Named("sync/atomic.CompareAndSwapUint64"), 1)
+	dus := Calls(fn, false, Named("utils.(*WaterMark).DoneUntil"))
+	if len(cas) == 0 || len(dus) == 0 {
+		return
+	}
+	du := dus[0].Value()
+	offsets := map[int64]bool{}
+	for _, ld := range Calls(fn, false, Named("(*sync/atomic.Int32).Load")) {
+		ia, ok := ld.Common().Args[0].(*ssa.IndexAddr)
+		if !ok || fieldNameOf(ia.X) != "slots" {
+			continue
+		}
+		// the load's result is tested `> 0` and the CAS lies on the not-greater edge
+		guards := false
+		if ld.Value() != nil && ld.Value().Referrers() != nil {
+			for _, r := range *ld.Value().Referrers() {
+				bo, ok := r.(*ssa.BinOp)
+				if !ok || bo.Referrers() == nil {
+					continue
+				}
+				for _, rr := range *bo.Referrers() {
+					ifi, ok := rr.(*ssa.If)
+					if !ok {
+						continue
+					}
+					b := ifi.Block()
+					// on the edge where the counter is positive the CompareAndSwap is not reachable
+					// before the counter is read again (the function returns or starts over)
+					for _, cs := range cas {
+						for si, succ := range b.Succs {
+							pendingEdge := (bo.Op == token.GTR && si == 0) || (bo.Op == token.LEQ && si == 1)
+							if !pendingEdge {
+								continue
+							}
+							if reach, _ := reachFromBlock(fn, succ, cs.(ssa.Instruction), []ssa.Instruction{ld.(ssa.Instruction)}); !reach {
+								guards = true
+							}
+						}
+					}
+				}
+			}
+		}
+		if !guards {
+			continue
+		}
+		af := AffineOf(ia.Index, du)
+		if af.Terms[du] != 1 {
+			continue
+		}
+		okShape := true
+		for t, k := range af.Terms {
+			if t == du {
+				continue
+			}
+			if !(fieldNameOf(t) == "base" && k == -1) {
+				okShape = false
+			}
+		}
+		if okShape {
+			offsets[af.K] = true
+		}
+	}
+	c.Decide(offsets[1], rule, key(fn, "advance<-slot[doneUntil+1]<=0"), cas[0].Pos(), len(offsets)+1, "the next index must be finished", "tryAdvance advances without testing the counter of doneUntil+1")
+	c.Decide(offsets[0], rule, key(fn, "advance<-slot[doneUntil]<=0"), cas[0].Pos(), len(offsets)+1, "an index pending AT the watermark holds it back",
+		"tryAdvance tests only the counter of doneUntil+1: an index begun again while it equals doneUntil (a reader starting at the timestamp all earlier readers finished with, or the first reader after reopen) does not hold the watermark back, so cleanupCommittedTransactions prunes conflict records newer than an active transaction's read timestamp and a conflicting commit succeeds (lost update)")
+	if ai := c.Fn("utils", "WaterMark.addIndex"); ai != nil {
+		// no early return that ignores an index value: every return lies after the slot update or on
+		// an out-of-window edge
+		ignores := false
+		for _, b := range ai.Blocks {
+			ifi := ifOf(b)
+			if ifi == nil {
+				continue
+			}
+			bo, ok := ifi.Cond.(*ssa.BinOp)
+			if !ok || bo.Op != token.EQL {
+				continue
+			}
+			if _, isP := Unwrap(bo.X).(*ssa.Parameter); !isP {
+				continue
+			}
+			if k, isK := ConstInt(bo.Y); isK && k == 0 {
+				for _, r := range Returns(ai) {
+					if EdgeDominates(b, b.Succs[0], r.Block()) {
+						ignores = true
+					}
+				}
+			}
+		}
+		c.Decide(!ignores, rule, key(ai, "counts-index-0"), ai.Pos(), 1, "index 0 is counted like any other", "addIndex ignores index 0: the first transaction of a fresh store (read timestamp 0) is not registered with the read watermark")
+	}
 }
